@@ -17,7 +17,7 @@ use crate::Ctx;
 
 /// number of variables after executing `ops` on a manager created with n variables
 fn n_now(ops: &[Op], n: u32) -> u32 {
-    n + ops.iter().map(|o| if let Op::AddVars(k) | Op::AddNamedVars(k) = o { *k } else { 0 }).sum::<u32>()
+    n + ops.iter().map(|o| if let Op::AddVars(k) | Op::AddNamedVars(k) | Op::AddNamedVarsRejected(k) = o { *k } else { 0 }).sum::<u32>()
 }
 
 /// History biased towards apply-cache hazards
@@ -27,7 +27,7 @@ fn hostile_history(rng: &mut Rng, n: u32, len: usize, quant: bool, reorder: bool
     while ops.len() < len {
         let l = live(&ops);
         let (a, b, c) = (rng.usize(l), rng.usize(l), rng.usize(l));
-        match rng.below(13) {
+        match rng.below(14) {
             // the same operand tuple under different operators back-to-back
             0..=2 => {
                 let mut bops = ALL_BOPS.to_vec();
@@ -90,6 +90,17 @@ fn hostile_history(rng: &mut Rng, n: u32, len: usize, quant: bool, reorder: bool
                 ops.push(Op::Bin(op, a, b));
                 ops.push(Op::Bin(op, 0, 1));
             }
+            // repetition separated by a level-wise `LevelView::gc()` outside a prepared collection (must
+            // not free anything the apply cache still refers to), with new nodes in between
+            13 => {
+                let op = *rng.pick(&ALL_BOPS);
+                ops.push(Op::Bin(op, a, b));
+                ops.push(Op::Drop(usize::MAX)); // the newest handle: the result just computed
+                ops.push(Op::LevelGc);
+                ops.push(Op::FromTable(rng.next()));
+                ops.push(Op::FromTable(rng.next()));
+                ops.push(Op::Bin(op, a, b));
+            }
             // repetition separated by add_vars: a memoised result must not survive it (for ZBDDs results
             // can contain the tautology over all variables); cubes with a negative literal on the
             // new bottom variable share their nodes with cubes of the smaller domain
@@ -99,7 +110,7 @@ fn hostile_history(rng: &mut Rng, n: u32, len: usize, quant: bool, reorder: bool
                 ops.push(Op::Restrict(b, care, 0));
                 ops.push(Op::Not(a));
                 // both ways of adding variables (separate code paths in both managers)
-                ops.push(if rng.bool() { Op::AddVars(1) } else { Op::AddNamedVars(1) });
+                ops.push(match rng.below(3) { 0 => Op::AddVars(1), 1 => Op::AddNamedVars(1), _ => Op::AddNamedVarsRejected(1) });
                 let nn = n_now(&ops, n);
                 let top = 1u32 << (nn - 1);
                 ops.push(Op::Restrict(a, care | top, care));
